@@ -7,6 +7,48 @@
 //! (BTreeMap).  A watchdog expiry counts only if it reproduces on an immediate re-run with
 //! the same seed.  No model op lines beyond one summary line per case: the tie for C15 is
 //! T0 (order obligations on the generated skeletons) + these oracle runs.
+//!
+//! Directed scenarios (each also forced by case index in `run`, the adjusted seed is printed):
+//! * `exact`    the commit queue drains to exactly the 16 MiB limit under a throttled committer.
+//! * `quiesce`  commit worker stalled by a parked `iter_column_while`, a backlog of flushed log
+//!              files piles up, release, client QUIET without drop.  Expectation after the quiet
+//!              period (bound 12 s, then stable for a further 300 ms): every accepted commit is
+//!              enacted (`verif_last_enacted()` == number of Ok commits: one record per commit,
+//!              ids from 1, no index growth) and the number of non-empty log files is 0 with
+//!              sync_data=true and <= KEEP_LOGS (16) with sync_data=false (`clean_logs` keeps
+//!              16 enacted files).  sync_data=false uses a backlog of 18..30 files (> KEEP_LOGS).
+//! * `logqfull` > 128 MiB logged and unenacted: commit worker stalled as in `quiesce`, a committer
+//!              commits 17 MiB values: 8 are logged (136 MiB > MAX_LOG_QUEUE_BYTES), the log worker
+//!              parks in the log-queue-full throttle, the 9th stays queued (> 16 MiB).  Variant A
+//!              (10..12 commits): the 10th call blocks; the state counts as reached if log files
+//!              hold > 128 MiB and the call is pending for >= 300 ms (`logqfull.reached`); release:
+//!              all calls must return, then quiet: everything enacted, logs reclaimed as in
+//!              `quiesce`; then drop.  Variant B (9 commits, none blocks; reached = > 128 MiB of
+//!              log files, not growing for 300 ms): release the iteration and drop IMMEDIATELY:
+//!              shutdown while the log worker is parked in the throttle
+//!              (`logqfull.drop_while_parked` = no big record enacted yet when drop started).
+//! * `growth`   identity hashing (uniform + zero salt), 66..88 keys of one index chunk committed in
+//!              several transactions interleaved with ordinary ones: the index grows (16 -> 17 bits)
+//!              with later commits in flight; then QUIET without drop.  Oracle: every log file is
+//!              reclaimed within the bound.  Recorded, not judged: whether the old index table was
+//!              reindexed and deleted without client activity (`growth.reindex_done_without_client`)
+//!              or is still queued (`growth.reindex_stalled`: `process_reindex` is only re-run when
+//!              the log worker is woken by a commit); in the latter case ONE tiny commit must
+//!              complete the reindex (single old table) and reclaim all logs within the bound.
+//!
+//! * `defercycle` multitree column: X = [DereferenceTree T, InsertTree A] and Y = [DereferenceTree T,
+//!              InsertTree B] (variant `zxy`: Z = [Deref T2], X = [Deref T1, Insert A], Y = [Deref T2,
+//!              Insert B]) are committed while readers of the trees are locked (each InsertTree records
+//!              `used_trees`), then the readers are unlocked AND dropped and the client goes quiet.
+//!              Expectation (C15): every accepted commit is logged and enacted without further client
+//!              activity.  Observed on the current crate: `process_commits` defers X because of Y and Y
+//!              because of X' for ever (no record is ever written, the log worker spins, `drop` never
+//!              returns): reported as KNOWN finding `DEFER_LIVELOCK_ID` (the handle is abandoned, not
+//!              dropped).  Variant `control` (Y does not dereference) must drain, drop and reopen.
+//!              With workers (`threads=1`) or driven by the stepping API (`threads=0`).
+//!
+//! Hidden experiments on the real crate: `pdbverif c15-child <dir> probe-a1|a2|a3|a4 ...`
+//! (module `probe` at the end of this file).
 use crate::util::*;
 use parity_db::{Db, Options};
 use std::collections::BTreeMap;
@@ -16,7 +58,16 @@ use std::process::{Command, Stdio};
 use std::sync::{Arc, Mutex, RwLock};
 use std::time::{Duration, Instant};
 
-pub const SCENARIOS: [&str; 10] = ["small", "sizes", "logs", "logs-nothread", "shutdown", "bgerr", "keeplogs", "errfull", "exact", "quiesce"];
+pub const SCENARIOS: [&str; 13] = [
+	"small", "sizes", "logs", "logs-nothread", "shutdown", "bgerr", "keeplogs", "errfull", "exact", "quiesce", "logqfull", "growth",
+	"defercycle",
+];
+
+/// id of the known finding reported by scenario `defercycle` (known_findings.json, property C15)
+pub const DEFER_LIVELOCK_ID: &str = "F27";
+
+const KEEP_LOGS: usize = 16;
+const MAX_LOG_QUEUE_BYTES: u64 = 128 * 1024 * 1024;
 
 #[derive(Clone, Debug)]
 struct Cfg {
@@ -25,6 +76,8 @@ struct Cfg {
 	sync_wal: bool,
 	sync_data: bool,
 	threads: bool,
+	/// logqfull: 0 = A (a call blocks; release, drain, quiet, drop), 1 = B (release + immediate drop)
+	variant: u8,
 }
 
 fn gen_cfg(seed: u64, thorough: bool) -> Cfg {
@@ -50,13 +103,42 @@ fn gen_cfg(seed: u64, thorough: bool) -> Cfg {
 		sync_wal: rng.chance(1, 2),
 		sync_data: rng.chance(1, 2),
 		threads: true,
+		variant: 0,
 	};
-	match scenario {
+	// Scenarios added later are carved out of the frequent ones by draws made AFTER the old ones,
+	// so that a seed either keeps its old case or moves to a new scenario.
+	let e = rng.below(6);
+	c.variant = rng.below(2) as u8;
+	let mut derived_quiesce = false;
+	c.scenario = match (scenario, e) {
+		("sizes", 0) => "logqfull",
+		("small", 0) | ("shutdown", 0) => "growth",
+		("small", 1) => "defercycle",
+		("keeplogs", 0..=1) | ("logs", 0) => {
+			derived_quiesce = true;
+			"quiesce"
+		},
+		_ => scenario,
+	};
+	match c.scenario {
 		"logs" => c.always_flush = true,
 		"quiesce" => {
-			// every log file is reclaimed only with sync_data (otherwise KEEP_LOGS files stay dirty)
+			// sync_data: every log file is reclaimed; otherwise KEEP_LOGS enacted files stay.
+			// Seeds that mapped to quiesce before keep sync_data = true.
+			c.always_flush = true;
+			c.sync_data = !derived_quiesce;
+		},
+		"logqfull" => c.always_flush = true,
+		"growth" => {
 			c.always_flush = true;
 			c.sync_data = true;
+		},
+		"defercycle" => {
+			c.always_flush = true;
+			c.sync_data = true;
+			// variant: 0 = single tree, 1 = two trees (zxy), 2 = control (no cycle)
+			c.variant = (seed % 3) as u8;
+			c.threads = (seed / 3) % 2 == 0;
 		},
 		"logs-nothread" => {
 			c.threads = false;
@@ -74,6 +156,12 @@ fn gen_cfg(seed: u64, thorough: bool) -> Cfg {
 fn options(dir: &Path, c: &Cfg) -> Options {
 	let mut o = Options::with_columns(dir, 1);
 	o.salt = Some([7u8; 32]);
+	if c.scenario == "growth" {
+		// zero salt + uniform + instrumentation = identity hashing on 32-byte keys: the first 16
+		// bits of a key select the index chunk, > 64 keys in one chunk force an index growth.
+		o.columns[0] = parity_db::ColumnOptions { uniform: true, ..Default::default() };
+		o.salt = Some([0u8; 32]);
+	}
 	o.stats = false;
 	o.sync_wal = c.sync_wal;
 	o.sync_data = c.sync_data;
@@ -173,9 +261,131 @@ fn record(expect: &Mutex<Expect>, tx: &[(Vec<u8>, Option<(usize, u64)>)]) {
 	}
 }
 
-/// `pdbverif c15-child <dir> <scenario> <seed> <always_flush> <sync_wal> <sync_data> <threads>`
+
+/// (number of non-empty log files, their total length)
+fn log_files(dir: &Path) -> (usize, u64) {
+	let mut n = 0;
+	let mut b = 0;
+	if let Ok(rd) = std::fs::read_dir(dir) {
+		for e in rd.flatten() {
+			if e.file_name().to_string_lossy().starts_with("log") {
+				let l = e.metadata().map(|m| m.len()).unwrap_or(0);
+				if l > 0 {
+					n += 1;
+					b += l;
+				}
+			}
+		}
+	}
+	(n, b)
+}
+
+fn index_files(dir: &Path) -> usize {
+	std::fs::read_dir(dir)
+		.map(|d| d.flatten().filter(|e| e.file_name().to_string_lossy().starts_with("index_")).count())
+		.unwrap_or(0)
+}
+
+/// The client is quiet: wait (at most `bound`) until every accepted commit is enacted and the log
+/// files are reclaimed as far as the configuration allows (`max_left` non-empty files), then
+/// require the state to be stable for a further 300 ms.  Returns (ms, files left, last_enacted, ok).
+fn quiet_wait(db: &Db, dir: &Path, out: &Out, commits_ok: u64, max_left: usize, bound: Duration) -> (u128, usize, u64, bool) {
+	let t0 = Instant::now();
+	let good = |db: &Db| log_files(dir).0 <= max_left && db.verif_last_enacted() == commits_ok;
+	let mut last_line = Instant::now();
+	while !good(db) && t0.elapsed() < bound {
+		std::thread::sleep(Duration::from_millis(10));
+		if last_line.elapsed() > Duration::from_millis(1000) {
+			out.line("quiet waiting");
+			last_line = Instant::now();
+		}
+	}
+	let ms = t0.elapsed().as_millis();
+	let mut ok = good(db);
+	if ok {
+		std::thread::sleep(Duration::from_millis(300));
+		ok = good(db);
+	}
+	(ms, log_files(dir).0, db.verif_last_enacted(), ok)
+}
+
+/// Stall the commit worker: a value iteration parked inside its callback holds the lock
+/// `enact_logs` needs.  Needs one enacted value.  Returns (parked, release flag, thread).
+fn park_iteration(
+	db: &Arc<Db>,
+) -> (bool, Arc<std::sync::atomic::AtomicBool>, std::thread::JoinHandle<()>) {
+	use std::sync::atomic::{AtomicBool, Ordering};
+	// wait until something is enacted (the iteration needs a stored value to call back on)
+	let t0 = Instant::now();
+	loop {
+		let mut found = false;
+		let _ = db.iter_column_while(0, |_| {
+			found = true;
+			false
+		});
+		if found || t0.elapsed() > Duration::from_secs(10) {
+			break
+		}
+		std::thread::sleep(Duration::from_millis(5));
+	}
+	let parked = Arc::new(AtomicBool::new(false));
+	let release = Arc::new(AtomicBool::new(false));
+	let it = {
+		let (db, parked, release) = (db.clone(), parked.clone(), release.clone());
+		std::thread::spawn(move || {
+			let _ = db.iter_column_while(0, |_| {
+				parked.store(true, Ordering::SeqCst);
+				while !release.load(Ordering::SeqCst) {
+					std::thread::sleep(Duration::from_micros(200));
+				}
+				false
+			});
+			drop(db);
+		})
+	};
+	let t0 = Instant::now();
+	while !parked.load(Ordering::SeqCst) && t0.elapsed() < Duration::from_secs(5) {
+		std::thread::sleep(Duration::from_millis(1));
+	}
+	(parked.load(Ordering::SeqCst), release, it)
+}
+
+const HOT_PREFIX: [u8; 2] = [0x5a, 0xc3];
+
+/// 32-byte key in the hot index chunk (identity hashing); bytes 2.. pseudo-random, embed `id`.
+fn hot_key(id: u64) -> Vec<u8> {
+	let mut r = Rng::new(id.wrapping_mul(0x9e37_79b9).wrapping_add(0x2_0000_0002));
+	let mut k = [0u8; 32];
+	for i in 0..4 {
+		k[i * 8..i * 8 + 8].copy_from_slice(&r.next().to_le_bytes());
+	}
+	k[0] = HOT_PREFIX[0];
+	k[1] = HOT_PREFIX[1];
+	k[24] = 2;
+	k[25..32].copy_from_slice(&id.to_be_bytes()[1..8]);
+	k.to_vec()
+}
+
+/// 32-byte key spread over the index (never in the hot chunk).
+fn spread_key(rng: &mut Rng, id: u64) -> Vec<u8> {
+	let mut k = [0u8; 32];
+	for i in 0..4 {
+		k[i * 8..i * 8 + 8].copy_from_slice(&rng.next().to_le_bytes());
+	}
+	if k[0] == HOT_PREFIX[0] {
+		k[0] ^= 0x80;
+	}
+	k[24] = 9;
+	k[25..32].copy_from_slice(&id.to_be_bytes()[1..8]);
+	k.to_vec()
+}
+
+/// `pdbverif c15-child <dir> <scenario> <seed> <always_flush> <sync_wal> <sync_data> <threads> [<variant>]`
 pub fn child_main(args: &[String]) -> i32 {
 	let dir = std::path::PathBuf::from(&args[0]);
+	if args[1].starts_with("probe-") {
+		return probe::main(&dir, &args[1], &args[2..])
+	}
 	let scenario: &'static str = SCENARIOS.iter().copied().find(|s| *s == args[1]).expect("scenario");
 	let seed: u64 = args[2].parse().unwrap();
 	let cfg = Cfg {
@@ -184,8 +394,12 @@ pub fn child_main(args: &[String]) -> i32 {
 		sync_wal: args[4] == "1",
 		sync_data: args[5] == "1",
 		threads: args[6] == "1",
+		variant: args.get(7).and_then(|v| v.parse().ok()).unwrap_or(0),
 	};
 	let out = Arc::new(Out(std::io::stdout()));
+	if scenario == "defercycle" {
+		return defercycle_child(&dir, &cfg, &out)
+	}
 	let mut rng = Rng::new(seed ^ 0xc15);
 	let opts = options(&dir, &cfg);
 	let db = match Db::open_or_create(&opts) {
@@ -416,51 +630,25 @@ pub fn child_main(args: &[String]) -> i32 {
 			// The pipeline drains WITHOUT further client activity and without a drop: the commit
 			// worker is stalled (a parked value iteration holds the lock enact_logs needs) while a
 			// backlog of flushed log files builds up (one file per paced commit), then the iteration
-			// is released and the client goes quiet.  All log files must be reclaimed (length 0)
-			// within the bound.
+			// is released and the client goes quiet.  Every accepted commit must be enacted and the
+			// log files reclaimed (all with sync_data, all but KEEP_LOGS without) within the bound.
 			let db = Arc::new(db);
 			let mut pool = vec![];
+			let mut ok_commits = 0u64;
 			for idx in 0..3u64 {
 				let tx = make_tx(&mut rng, 0, idx, "small", &mut pool);
 				out.line(&format!("begin commit 0 {} small", idx));
 				if do_commit(&db, &tx).is_ok() {
 					record(&expect, &tx);
+					ok_commits += 1;
 				}
 				out.line(&format!("commit 0 {} small 0 ok", idx));
 			}
-			// wait until something is enacted (the iteration needs a stored value to call back on)
-			let t0 = Instant::now();
-			loop {
-				let mut found = false;
-				let _ = db.iter_column_while(0, |_| {
-					found = true;
-					false
-				});
-				if found || t0.elapsed() > Duration::from_secs(10) {
-					break
-				}
-				std::thread::sleep(Duration::from_millis(5));
-			}
-			let parked = Arc::new(std::sync::atomic::AtomicBool::new(false));
-			let release = Arc::new(std::sync::atomic::AtomicBool::new(false));
-			let it = {
-				let (db, parked, release) = (db.clone(), parked.clone(), release.clone());
-				std::thread::spawn(move || {
-					let _ = db.iter_column_while(0, |_| {
-						parked.store(true, std::sync::atomic::Ordering::SeqCst);
-						while !release.load(std::sync::atomic::Ordering::SeqCst) {
-							std::thread::sleep(Duration::from_millis(1));
-						}
-						false
-					});
-				})
-			};
-			let t0 = Instant::now();
-			while !parked.load(std::sync::atomic::Ordering::SeqCst) && t0.elapsed() < Duration::from_secs(5) {
-				std::thread::sleep(Duration::from_millis(1));
-			}
-			out.line(&format!("parked {}", parked.load(std::sync::atomic::Ordering::SeqCst)));
-			let backlog = rng.range(6, 26);
+			let (parked, release, it) = park_iteration(&db);
+			out.line(&format!("parked {}", parked));
+			// more than the number of files the commit worker may leave dirty (MAX_LOG_FILES = 4 with
+			// sync_data, KEEP_LOGS = 16 without)
+			let backlog = if cfg.sync_data { rng.range(6, 26) } else { rng.range(18, 30) };
 			for idx in 3..3 + backlog {
 				let tx = make_tx(&mut rng, 0, idx, "small", &mut pool);
 				out.line(&format!("begin commit 0 {} small", idx));
@@ -468,45 +656,290 @@ pub fn child_main(args: &[String]) -> i32 {
 				match do_commit(&db, &tx) {
 					Ok(()) => {
 						record(&expect, &tx);
+						ok_commits += 1;
 						out.line(&format!("commit 0 {} small {} ok", idx, t0.elapsed().as_millis()));
 					},
 					Err(e) => out.line(&format!("commit 0 {} small {} err:{}", idx, t0.elapsed().as_millis(), err_kind(&e))),
 				}
 				std::thread::sleep(Duration::from_millis(6));
 			}
+			let (files_before, _) = log_files(&dir);
+			out.line(&format!("STAT quiesce.backlog_files_ge_{} 1", if files_before > KEEP_LOGS { 17 } else if files_before > 4 { 5 } else { 0 }));
 			release.store(true, std::sync::atomic::Ordering::SeqCst);
 			let _ = it.join();
 			out.line("begin quiet");
-			let pending = |dir: &Path| -> usize {
-				std::fs::read_dir(dir)
-					.map(|d| {
-						d.filter_map(|e| e.ok())
-							.filter(|e| e.file_name().to_string_lossy().starts_with("log") && e.metadata().map(|m| m.len() > 0).unwrap_or(false))
-							.count()
-					})
-					.unwrap_or(0)
-			};
-			let t0 = Instant::now();
-			let mut left = pending(&dir);
-			while left > 0 && t0.elapsed() < Duration::from_secs(12) {
-				std::thread::sleep(Duration::from_millis(20));
-				left = pending(&dir);
-				if t0.elapsed().as_millis() % 1000 < 25 {
-					out.line("quiet waiting");
-				}
+			let max_left = if cfg.sync_data { 0 } else { KEEP_LOGS };
+			let (ms, left, enacted, ok) = quiet_wait(&db, &dir, &out, ok_commits, max_left, Duration::from_secs(12));
+			out.line(&format!("quiet {} {} enacted={}/{}", ms, left, enacted, ok_commits));
+			if ok {
+				out.line(&format!("STAT quiesce.{} 1", if cfg.sync_data { "sync_data.all_enacted_all_logs_reclaimed" } else { "no_sync_data.all_enacted_le_16_logs_left" }));
 			}
-			out.line(&format!("quiet {} {}", t0.elapsed().as_millis(), left));
-			if left > 0 {
+			if !cfg.sync_data {
+				out.line(&format!("STAT quiesce.no_sync_data.files_left_{} 1", left));
+			}
+			if !ok {
 				out.line(&format!(
-					"FAIL quiesce: {} log file(s) still hold records {} ms after the client went quiet (backlog of {} flushed log files behind a stalled commit worker)",
-					left,
-					t0.elapsed().as_millis(),
-					backlog
+					"FAIL quiesce: {} ms after the client went quiet {} log file(s) still hold records (allowed {}), last enacted record {} of {} accepted commits (backlog of {} flushed log files behind a stalled commit worker, sync_data={})",
+					ms, left, max_left, enacted, ok_commits, backlog, cfg.sync_data
 				));
 			}
 			out.line("begin drop");
 			let t0 = Instant::now();
 			drop(Arc::try_unwrap(db).ok().unwrap());
+			out.line(&format!("drop {}", t0.elapsed().as_millis()));
+		},
+		"logqfull" => {
+			// More than MAX_LOG_QUEUE_BYTES logged and not enacted: the commit worker is stalled, the
+			// log worker logs 8 x 17 MiB and parks in the log-queue-full throttle, the 9th commit
+			// stays queued (> 16 MiB), a 10th call blocks.
+			use std::sync::atomic::{AtomicU64, Ordering};
+			let db = Arc::new(db);
+			let mut pool = vec![];
+			let mut ok_commits = 0u64;
+			for idx in 0..3u64 {
+				let tx = make_tx(&mut rng, 0, idx, "small", &mut pool);
+				out.line(&format!("begin commit 0 {} small", idx));
+				if do_commit(&db, &tx).is_ok() {
+					record(&expect, &tx);
+					ok_commits += 1;
+				}
+				out.line(&format!("commit 0 {} small 0 ok", idx));
+			}
+			let (parked, release, it) = park_iteration(&db);
+			out.line(&format!("parked {}", parked));
+			let enacted_before = db.verif_last_enacted();
+			let n: u64 = if cfg.variant == 0 { rng.range(10, 12) } else { 9 };
+			let in_flight = Arc::new(AtomicU64::new(0)); // index + 1 of the call in progress
+			let returned = Arc::new(AtomicU64::new(0));
+			let oks = Arc::new(AtomicU64::new(0));
+			let committer = {
+				let (db, out, expect, in_flight, returned, oks) = (db.clone(), out.clone(), expect.clone(), in_flight.clone(), returned.clone(), oks.clone());
+				let mut r = rng.fork();
+				std::thread::spawn(move || {
+					for idx in 0..n {
+						let tx = make_tx(&mut r, 1, idx, "17m", &mut vec![]);
+						out.line(&format!("begin commit 1 {} 17m", idx));
+						in_flight.store(idx + 1, Ordering::SeqCst);
+						let t0 = Instant::now();
+						let res = do_commit(&db, &tx);
+						in_flight.store(0, Ordering::SeqCst);
+						match &res {
+							Ok(()) => {
+								record(&expect, &tx);
+								oks.fetch_add(1, Ordering::SeqCst);
+								out.line(&format!("commit 1 {} 17m {} ok", idx, t0.elapsed().as_millis()));
+							},
+							Err(e) => out.line(&format!("commit 1 {} 17m {} err:{}", idx, t0.elapsed().as_millis(), err_kind(e))),
+						}
+						returned.store(idx + 1, Ordering::SeqCst);
+						if res.is_err() {
+							break
+						}
+					}
+					drop(db);
+				})
+			};
+			// Is the state really reached?  A: > 128 MiB of log files and one call pending for 300 ms.
+			// B: all 9 calls returned, > 128 MiB of log files, not growing for 300 ms (the 9th commit
+			// is queued but not logged: the log worker is parked).
+			let t0 = Instant::now();
+			let mut reached = false;
+			let mut since: Option<(u64, u64, Instant)> = None; // (call in flight, log bytes, since)
+			while t0.elapsed() < Duration::from_secs(20) {
+				std::thread::sleep(Duration::from_millis(10));
+				let fl = in_flight.load(Ordering::SeqCst);
+				let (_, bytes) = log_files(&dir);
+				let key = (fl, bytes);
+				match since {
+					Some((f, b, t)) if (f, b) == key => {
+						let steady = t.elapsed() >= Duration::from_millis(300);
+						let full = bytes > MAX_LOG_QUEUE_BYTES;
+						let calls = if cfg.variant == 0 { fl != 0 } else { fl == 0 && returned.load(Ordering::SeqCst) == n };
+						if steady && (full && calls || returned.load(Ordering::SeqCst) == n) {
+							reached = full && calls;
+							break
+						}
+					},
+					_ => since = Some((fl, bytes, Instant::now())),
+				}
+			}
+			let (files, bytes) = log_files(&dir);
+			out.line(&format!(
+				"logqfull variant={} reached={} log_files={} log_bytes={} call_in_flight={} returned={} last_enacted={}",
+				cfg.variant,
+				reached,
+				files,
+				bytes,
+				in_flight.load(Ordering::SeqCst),
+				returned.load(Ordering::SeqCst),
+				db.verif_last_enacted()
+			));
+			out.line(&format!("STAT logqfull.{}.reached {}", if cfg.variant == 0 { "A" } else { "B" }, if reached { 1 } else { 0 }));
+			if cfg.variant == 0 {
+				release.store(true, Ordering::SeqCst);
+				let _ = it.join();
+				let _ = committer.join();
+				ok_commits += oks.load(Ordering::SeqCst);
+				out.line("begin quiet");
+				let max_left = if cfg.sync_data { 0 } else { KEEP_LOGS };
+				let (ms, left, enacted, ok) = quiet_wait(&db, &dir, &out, ok_commits, max_left, Duration::from_secs(12));
+				out.line(&format!("quiet {} {} enacted={}/{}", ms, left, enacted, ok_commits));
+				if ok {
+					out.line("STAT logqfull.A.drained_quiet 1");
+				} else {
+					out.line(&format!(
+						"FAIL logqfull: {} ms after the client went quiet {} log file(s) still hold records (allowed {}), last enacted record {} of {} accepted commits (sync_data={})",
+						ms, left, max_left, enacted, ok_commits, cfg.sync_data
+					));
+				}
+				out.line("begin drop");
+				let t0 = Instant::now();
+				drop(Arc::try_unwrap(db).ok().unwrap());
+				out.line(&format!("drop {}", t0.elapsed().as_millis()));
+			} else {
+				let _ = committer.join();
+				// release and drop at once: the iteration thread gives up its reference within
+				// ~200 us, the first 17 MiB record takes the commit worker milliseconds to enact.
+				out.line("begin drop");
+				let t0 = Instant::now();
+				release.store(true, Ordering::SeqCst);
+				let mut db = db;
+				let owned = loop {
+					match Arc::try_unwrap(db) {
+						Ok(d) => break d,
+						Err(a) => db = a,
+					}
+					std::hint::spin_loop();
+				};
+				let enacted_at_drop = owned.verif_last_enacted();
+				drop(owned);
+				out.line(&format!("drop {}", t0.elapsed().as_millis()));
+				let _ = it.join();
+				out.line(&format!("logqfull drop: last_enacted before the stall={} at drop={}", enacted_before, enacted_at_drop));
+				if reached && enacted_at_drop == enacted_before {
+					out.line("STAT logqfull.B.drop_while_parked 1");
+				}
+			}
+		},
+		"growth" => {
+			// Index growth with commits in flight, then the client goes quiet WITHOUT dropping.
+			let nhot = rng.range(66, 88);
+			let per_tx = rng.range(4, 16);
+			let mut ok_commits = 0u64;
+			let mut id = 0u64;
+			let mut other = 0u64;
+			let commit_tx = |tx: Vec<(Vec<u8>, Option<(usize, u64)>)>, class: &str, n: u64| -> bool {
+				out.line(&format!("begin commit 0 {} {}", n, class));
+				let t0 = Instant::now();
+				match do_commit(&db, &tx) {
+					Ok(()) => {
+						record(&expect, &tx);
+						out.line(&format!("commit 0 {} {} {} ok", n, class, t0.elapsed().as_millis()));
+						true
+					},
+					Err(e) => {
+						out.line(&format!("commit 0 {} {} {} err:{}", n, class, t0.elapsed().as_millis(), err_kind(&e)));
+						false
+					},
+				}
+			};
+			while id < nhot {
+				let n = per_tx.min(nhot - id);
+				let tx: Vec<_> = (id..id + n).map(|i| (hot_key(i), Some((rng.range(1, 200) as usize, rng.next())))).collect();
+				id += n;
+				if commit_tx(tx, "hot", ok_commits) {
+					ok_commits += 1;
+				}
+				if rng.chance(1, 2) {
+					let k = rng.range(1, 4);
+					let tx: Vec<_> = (0..k)
+						.map(|_| {
+							other += 1;
+							(spread_key(&mut rng, other), Some((rng.range(0, 3000) as usize, rng.next())))
+						})
+						.collect();
+					if commit_tx(tx, "small", ok_commits) {
+						ok_commits += 1;
+					}
+				}
+				if rng.chance(1, 3) {
+					std::thread::sleep(Duration::from_millis(rng.range(0, 3)));
+				}
+			}
+			out.line("begin quiet");
+			// (1) every log file reclaimed (sync_data = true) -- MUST hold.  Records = commits +
+			// reindex records, so the enacted id is only bounded from below here.
+			let t0 = Instant::now();
+			let mut last_line = Instant::now();
+			while (log_files(&dir).0 > 0 || db.verif_last_enacted() < ok_commits) && t0.elapsed() < Duration::from_secs(12) {
+				std::thread::sleep(Duration::from_millis(10));
+				if last_line.elapsed() > Duration::from_millis(1000) {
+					out.line("quiet waiting");
+					last_line = Instant::now();
+				}
+			}
+			let (left, _) = log_files(&dir);
+			let tables = db.verif_index_tables(0).unwrap_or((0, vec![]));
+			out.line(&format!("quiet {} {} enacted={}/{} index={:?}", t0.elapsed().as_millis(), left, db.verif_last_enacted(), ok_commits, tables));
+			if left > 0 || db.verif_last_enacted() < ok_commits {
+				out.line(&format!(
+					"FAIL growth: {} ms after the client went quiet {} log file(s) still hold records, last enacted record {} of {} accepted commits (index {:?})",
+					t0.elapsed().as_millis(), left, db.verif_last_enacted(), ok_commits, tables
+				));
+			}
+			out.line(&format!("STAT growth.index_bits_{} 1", tables.0));
+			// (2) recorded, not judged: does the reindex of the old table run without the client?
+			std::thread::sleep(Duration::from_millis(600));
+			let tables = db.verif_index_tables(0).unwrap_or((0, vec![]));
+			let (nr, le) = db.verif_reindex_state();
+			let stalled = !tables.1.is_empty() || index_files(&dir) > 1;
+			if tables.0 <= 16 {
+				out.line("STAT growth.no_growth 1");
+			} else if !stalled {
+				out.line("STAT growth.reindex_done_without_client 1");
+			} else {
+				out.line("STAT growth.reindex_stalled 1");
+				out.line(&format!(
+					"NOTE growth: {} ms after the last commit the old index table is still queued (index {:?}, {} index files, next_reindex={} last_enacted={}, all logs reclaimed): process_reindex is not re-run until a commit wakes the log worker",
+					t0.elapsed().as_millis(), tables, index_files(&dir), nr, le
+				));
+				if tables.1.len() > 1 {
+					out.line("STAT growth.two_old_tables_queued 1");
+				}
+				// ONE tiny commit must complete the reindex of a single old table
+				let tx = vec![(spread_key(&mut rng, 1 << 40), Some((1usize, rng.next())))];
+				if commit_tx(tx, "small", ok_commits) {
+					ok_commits += 1;
+				}
+				let t1 = Instant::now();
+				let done = |db: &Db| {
+					db.verif_index_tables(0).map(|t| t.1.is_empty()).unwrap_or(true) &&
+						index_files(&dir) == 1 && log_files(&dir).0 == 0 &&
+						db.verif_last_enacted() >= ok_commits
+				};
+				while !done(&db) && t1.elapsed() < Duration::from_secs(12) {
+					std::thread::sleep(Duration::from_millis(5));
+					if last_line.elapsed() > Duration::from_millis(1000) {
+						out.line("quiet waiting");
+						last_line = Instant::now();
+					}
+				}
+				let fin = done(&db);
+				out.line(&format!("growth after one tiny commit: done={} after {} ms index={:?} index_files={} logs={}", fin, t1.elapsed().as_millis(), db.verif_index_tables(0), index_files(&dir), log_files(&dir).0));
+				if fin {
+					out.line("STAT growth.reindex_done_after_one_commit 1");
+				} else if tables.1.len() == 1 {
+					out.line(&format!(
+						"FAIL growth: one commit after the stall the reindex of the single old index table did not complete within {} ms: index {:?}, {} index files, {} non-empty log files",
+						t1.elapsed().as_millis(), db.verif_index_tables(0), index_files(&dir), log_files(&dir).0
+					));
+				} else {
+					out.line("STAT growth.two_old_tables_need_more_commits 1");
+				}
+			}
+			out.line("begin drop");
+			let t0 = Instant::now();
+			drop(db);
 			out.line(&format!("drop {}", t0.elapsed().as_millis()));
 		},
 		"logs-nothread" => {
@@ -582,6 +1015,165 @@ pub fn child_main(args: &[String]) -> i32 {
 	}
 }
 
+
+/// Scenario `defercycle` (see the module comment).
+fn defercycle_child(dir: &Path, cfg: &Cfg, out: &Out) -> i32 {
+	use parity_db::{ColumnOptions, NewNode, NodeRef, Operation};
+	let background = cfg.threads;
+	let mut o = Options::with_columns(dir, 1);
+	o.columns[0] = ColumnOptions { multitree: true, allow_direct_node_access: true, ref_counted: true, preimage: true, ..Default::default() };
+	o.salt = Some([7u8; 32]);
+	o.stats = false;
+	o.always_flush = true;
+	o.sync_wal = cfg.sync_wal;
+	o.sync_data = true;
+	o.with_background_thread = background;
+	let db = match Db::open_or_create(&o) {
+		Ok(db) => db,
+		Err(e) => {
+			out.line(&format!("FAIL open {:?}", e));
+			return 3
+		},
+	};
+	let tree = |tag: u8| {
+		let leaf = |x: u8| NodeRef::New(NewNode { data: vec![tag, x, 0xaa, 0xbb], children: vec![] });
+		NewNode { data: vec![tag; 12], children: vec![leaf(1), leaf(2)] }
+	};
+	let (k1, k2, ka, kb) = (key_of(77, 1, 0), key_of(77, 2, 0), key_of(77, 10, 0), key_of(77, 11, 0));
+	let step = |db: &Db| {
+		if !background {
+			db.process_commits().unwrap();
+			db.flush_logs().unwrap();
+			db.enact_logs().unwrap();
+			db.clean_logs().unwrap();
+		}
+	};
+	let wait = |db: &Db, n: u64, ms: u64| {
+		let t0 = Instant::now();
+		while db.verif_last_enacted() < n && t0.elapsed() < Duration::from_millis(ms) {
+			std::thread::sleep(Duration::from_millis(1));
+		}
+		db.verif_last_enacted() >= n
+	};
+	// T1, T2 with two extra references each, fully enacted
+	let setup: Vec<Vec<(u8, Operation<Vec<u8>, Vec<u8>>)>> = vec![
+		vec![(0, Operation::InsertTree(k1.clone(), tree(1)))],
+		vec![(0, Operation::InsertTree(k2.clone(), tree(2)))],
+		vec![(0, Operation::ReferenceTree(k1.clone())), (0, Operation::ReferenceTree(k2.clone()))],
+		vec![(0, Operation::ReferenceTree(k1.clone())), (0, Operation::ReferenceTree(k2.clone()))],
+	];
+	for (i, tx) in setup.into_iter().enumerate() {
+		out.line(&format!("begin commit 0 {} setup", i));
+		db.commit_changes(tx).unwrap();
+		out.line(&format!("commit 0 {} setup 0 ok", i));
+		step(&db);
+	}
+	if !wait(&db, 4, 5000) {
+		out.line("FAIL defercycle: the four set-up commits were not enacted within 5 s");
+		return 6
+	}
+	let base = db.verif_last_enacted();
+	let r1 = db.get_tree(0, &k1).unwrap().expect("T1");
+	let r2 = db.get_tree(0, &k2).unwrap().expect("T2");
+	let g1 = r1.read();
+	let g2 = r2.read();
+	let txs: Vec<Vec<(u8, Operation<Vec<u8>, Vec<u8>>)>> = match cfg.variant {
+		0 => vec![
+			vec![(0, Operation::DereferenceTree(k1.clone())), (0, Operation::InsertTree(ka.clone(), tree(3)))],
+			vec![(0, Operation::DereferenceTree(k1.clone())), (0, Operation::InsertTree(kb.clone(), tree(4)))],
+		],
+		1 => vec![
+			vec![(0, Operation::DereferenceTree(k2.clone()))],
+			vec![(0, Operation::DereferenceTree(k1.clone())), (0, Operation::InsertTree(ka.clone(), tree(3)))],
+			vec![(0, Operation::DereferenceTree(k2.clone())), (0, Operation::InsertTree(kb.clone(), tree(4)))],
+		],
+		_ => vec![
+			vec![(0, Operation::DereferenceTree(k2.clone()))],
+			vec![(0, Operation::DereferenceTree(k1.clone())), (0, Operation::InsertTree(ka.clone(), tree(3)))],
+			vec![(0, Operation::InsertTree(kb.clone(), tree(4)))],
+		],
+	};
+	let ncommits = txs.len() as u64;
+	for (i, tx) in txs.into_iter().enumerate() {
+		out.line(&format!("begin commit 1 {} deref", i));
+		db.commit_changes(tx).unwrap();
+		out.line(&format!("commit 1 {} deref 0 ok", i));
+	}
+	// unlock and DROP both readers: nothing is held by the client from here on
+	drop(g1);
+	drop(g2);
+	drop(r1);
+	drop(r2);
+	out.line("begin quiet");
+	let t0 = Instant::now();
+	let mut rounds = 0;
+	if background {
+		wait(&db, base + ncommits, 1500);
+	} else {
+		while db.verif_last_enacted() < base + ncommits && rounds < 60 {
+			step(&db);
+			rounds += 1;
+		}
+	}
+	let enacted = db.verif_last_enacted() - base;
+	out.line(&format!("quiet {} {}", t0.elapsed().as_millis(), enacted));
+	out.line(&format!("STAT defercycle.variant.{} 1", ["single", "zxy", "control"][cfg.variant as usize]));
+	out.line(&format!("STAT defercycle.{} 1", if background { "workers" } else { "stepping" }));
+	if enacted < ncommits {
+		let a = db.get_root(0, &ka).map(|r| r.is_some()).unwrap_or(false);
+		let b = db.get_root(0, &kb).map(|r| r.is_some()).unwrap_or(false);
+		let msg = format!(
+			"deferral livelock: {} of {} accepted commits written and enacted {} after the client released and dropped its tree readers and went quiet (variant {}, {}: {}); inserted trees visible A={} B={}; handle abandoned (drop would not return)",
+			enacted,
+			ncommits,
+			if background { format!("{} ms", t0.elapsed().as_millis()) } else { format!("{} x (process_commits, flush_logs, enact_logs, clean_logs)", rounds) },
+			["single: X=[DereferenceTree T, InsertTree A], Y=[DereferenceTree T, InsertTree B]", "zxy: Z=[Deref T2], X=[Deref T1, Insert A], Y=[Deref T2, Insert B]", "control"][cfg.variant as usize],
+			if background { "background workers" } else { "stepping API" },
+			"process_commits defers each commit because the other one, queued behind it, recorded the tree in used_trees",
+			a,
+			b
+		);
+		if cfg.variant == 2 {
+			out.line(&format!("FAIL defercycle control: {}", msg));
+			out.line("DONE");
+			std::process::exit(5);
+		}
+		out.line(&format!("KNOWN {} {}", DEFER_LIVELOCK_ID, msg));
+		out.line("STAT defercycle.livelock 1");
+		out.line("DONE");
+		// the handle cannot be dropped (kill_logs / the log worker would spin for ever)
+		std::process::exit(0);
+	}
+	out.line("STAT defercycle.drained 1");
+	out.line("begin drop");
+	let t0 = Instant::now();
+	drop(db);
+	out.line(&format!("drop {}", t0.elapsed().as_millis()));
+	out.line("begin reopen");
+	o.with_background_thread = false;
+	let db = match Db::open(&o) {
+		Ok(db) => db,
+		Err(e) => {
+			out.line(&format!("FAIL reopen {:?}", e));
+			return 4
+		},
+	};
+	out.line("reopen ok");
+	let a = db.get_root(0, &ka).unwrap().is_some();
+	let b = db.get_root(0, &kb).unwrap().is_some();
+	if !a || !b {
+		out.line(&format!("FAIL defercycle: after reopen inserted trees A={} B={}", a, b));
+	}
+	out.line("verify 2 keys 0 bad");
+	drop(db);
+	out.line("DONE");
+	if a && b {
+		0
+	} else {
+		5
+	}
+}
+
 // ----------------------------------------------------------------------------------- parent
 
 #[derive(Default, Debug)]
@@ -602,6 +1194,11 @@ struct ChildReport {
 	timed_out: bool,
 	exit: Option<i32>,
 	wall_ms: u64,
+	/// `STAT <key> <n>` lines of the child: how often a directed state was really reached
+	stats: BTreeMap<String, u64>,
+	/// `NOTE ...` lines of the child: observations that are recorded, not judged
+	notes: Vec<String>,
+	known: Vec<(String, String)>,
 }
 
 fn run_child(dir: &Path, seed: u64, c: &Cfg, bound: Duration) -> ChildReport {
@@ -615,6 +1212,7 @@ fn run_child(dir: &Path, seed: u64, c: &Cfg, bound: Duration) -> ChildReport {
 		.arg(flag(c.sync_wal))
 		.arg(flag(c.sync_data))
 		.arg(flag(c.threads))
+		.arg(c.variant.to_string())
 		.stdout(Stdio::piped())
 		.stderr(Stdio::null())
 		.spawn()
@@ -664,6 +1262,9 @@ fn run_child(dir: &Path, seed: u64, c: &Cfg, bound: Duration) -> ChildReport {
 					"drop" if w.len() >= 2 => rep.drop_ms = w[1].parse().ok(),
 					"gone" => rep.gone += 1,
 					"FAIL" => rep.fails.push(l.clone()),
+					"STAT" if w.len() >= 3 => *rep.stats.entry(w[1].to_string()).or_insert(0) += w[2].parse().unwrap_or(0),
+					"NOTE" => rep.notes.push(l[5..].to_string()),
+					"KNOWN" if w.len() >= 3 => rep.known.push((w[1].to_string(), w[2..].join(" "))),
 					"verify" if w.len() >= 2 => rep.verified_keys = w[1].parse().unwrap_or(0),
 					"DONE" => rep.done = true,
 					_ => {},
@@ -704,15 +1305,27 @@ pub fn run(seeds: &[u64], thorough: bool, root: &Path, t: &mut Trace, ctr: &mut 
 	let bound = Duration::from_secs(if thorough { 120 } else { 60 });
 	let mut confirmed_hangs: Vec<(&'static str, bool)> = vec![];
 	for (i, seed) in seeds.iter().copied().enumerate() {
-		// a run of many cases contains the rare directed scenarios for certain: every tenth case
-		// moves to the next seed whose scenario is `quiesce` / `exact` (the adjusted seed is printed)
+		// a run of many cases contains the rare directed scenarios for certain: fixed case indices
+		// move to the next seed whose configuration is the wanted one (the adjusted seed is printed)
 		let mut seed = seed;
-		if seeds.len() >= 10 && (i % 10 == 3 || i % 10 == 8) {
-			let want = if i % 10 == 3 { "quiesce" } else { "exact" };
-			for j in 0..400 {
-				if gen_cfg(seed + j, thorough).scenario == want {
-					seed += j;
-					break
+		if seeds.len() >= 10 {
+			let want: Option<Box<dyn Fn(&Cfg) -> bool>> = match (i % 10, (i / 10) % 2) {
+				(1, 0) => Some(Box::new(|c: &Cfg| c.scenario == "logqfull" && c.variant == 0)),
+				(1, _) => Some(Box::new(|c: &Cfg| c.scenario == "logqfull" && c.variant == 1)),
+				(3, 0) => Some(Box::new(|c: &Cfg| c.scenario == "quiesce" && c.sync_data)),
+				(3, _) => Some(Box::new(|c: &Cfg| c.scenario == "quiesce" && !c.sync_data)),
+				(6, _) => Some(Box::new(|c: &Cfg| c.scenario == "growth")),
+				(5, 0) => Some(Box::new(|c: &Cfg| c.scenario == "defercycle" && c.variant == 0 && !c.threads)),
+				(5, _) => Some(Box::new(|c: &Cfg| c.scenario == "defercycle" && c.variant == 1 && c.threads)),
+				(8, _) => Some(Box::new(|c: &Cfg| c.scenario == "exact")),
+				_ => None,
+			};
+			if let Some(want) = want {
+				for j in 0..2000 {
+					if want(&gen_cfg(seed + j, thorough)) {
+						seed += j;
+						break
+					}
 				}
 			}
 		}
@@ -723,8 +1336,20 @@ pub fn run(seeds: &[u64], thorough: bool, root: &Path, t: &mut Trace, ctr: &mut 
 			continue
 		}
 		let desc = format!(
-			"seed={} scenario={} always_flush={} sync_wal={} sync_data={} threads={}",
-			seed, c.scenario, c.always_flush, c.sync_wal, c.sync_data, c.threads
+			"seed={} scenario={} always_flush={} sync_wal={} sync_data={} threads={}{}",
+			seed,
+			c.scenario,
+			c.always_flush,
+			c.sync_wal,
+			c.sync_data,
+			c.threads,
+			if c.scenario == "logqfull" {
+				format!(" variant={}", if c.variant == 0 { "A" } else { "B" })
+			} else if c.scenario == "defercycle" {
+				format!(" variant={}", ["single", "zxy", "control"][c.variant as usize])
+			} else {
+				String::new()
+			}
 		);
 		t.begin_case(&desc);
 		let dir = fresh_dir(root, &format!("c15-{}", seed));
@@ -778,6 +1403,16 @@ pub fn run(seeds: &[u64], thorough: bool, root: &Path, t: &mut Trace, ctr: &mut 
 			"commits ok={} err={} gone={} max_commit_ms={} slow(>=20ms)={} drop_ms={:?} verified_keys={} wall_ms={}",
 			rep.commits_ok, rep.commits_err, rep.gone, rep.max_commit_ms, rep.throttled, rep.drop_ms, rep.verified_keys, rep.wall_ms
 		));
+		for n in &rep.notes {
+			t.comment(n);
+		}
+		for (id, msg) in &rep.known {
+			t.known(prop, id, msg);
+			ctr.inc(&format!("known.{}", id));
+		}
+		for (k, v) in &rep.stats {
+			ctr.add(k, *v);
+		}
 		ctr.inc("cases");
 		ctr.inc(&format!("scenario.{}", c.scenario));
 		ctr.inc(if c.always_flush { "cfg.always_flush" } else { "cfg.min_log_size_64m" });
@@ -810,4 +1445,609 @@ pub fn run(seeds: &[u64], thorough: bool, root: &Path, t: &mut Trace, ctr: &mut 
 		let _ = std::fs::remove_dir_all(dir.with_extension("moved"));
 	}
 	fails
+}
+
+// ------------------------------------------------------------------------------------ probes
+// Hidden experiments on the real crate (`pdbverif c15-child <dir> probe-<name> [args]`), run by
+// hand under `timeout`; they print observations, they are not part of the oracle run.
+mod probe {
+	use super::*;
+	use parity_db::{ColumnOptions, NewNode, NodeRef, Operation};
+	use std::sync::atomic::{AtomicBool, AtomicU64, Ordering};
+
+	fn say(t0: Instant, s: &str) {
+		println!("[{:6} ms] {}", t0.elapsed().as_millis(), s);
+		let _ = std::io::stdout().flush();
+	}
+
+	/// tid -> (utime + stime in clock ticks (10 ms), state)
+	fn cpu_by_thread() -> BTreeMap<u64, (u64, char)> {
+		let mut m = BTreeMap::new();
+		if let Ok(rd) = std::fs::read_dir("/proc/self/task") {
+			for e in rd.flatten() {
+				let tid: u64 = match e.file_name().to_string_lossy().parse() {
+					Ok(t) => t,
+					Err(_) => continue,
+				};
+				if let Ok(st) = std::fs::read_to_string(e.path().join("stat")) {
+					if let Some(p) = st.rfind(')') {
+						let f: Vec<&str> = st[p + 1..].split_whitespace().collect();
+						if f.len() > 12 {
+							let ut: u64 = f[11].parse().unwrap_or(0);
+							let stime: u64 = f[12].parse().unwrap_or(0);
+							m.insert(tid, (ut + stime, f[0].chars().next().unwrap_or('?')));
+						}
+					}
+				}
+			}
+		}
+		m
+	}
+
+	fn cpu_delta(a: &BTreeMap<u64, (u64, char)>, b: &BTreeMap<u64, (u64, char)>) -> String {
+		let me = unsafe { libc::syscall(libc::SYS_gettid) } as u64;
+		let mut parts = vec![];
+		let mut total = 0;
+		for (tid, (t1, st)) in b {
+			let t0 = a.get(tid).map(|x| x.0).unwrap_or(0);
+			let d = t1 - t0;
+			total += d;
+			parts.push(format!("{}{}:{}ms({})", if *tid == me { "*" } else { "" }, tid, d * 10, st));
+		}
+		format!("total_cpu={}ms per-thread[{}]", total * 10, parts.join(" "))
+	}
+
+	fn mt_options(dir: &Path, background: bool) -> Options {
+		let mut o = Options::with_columns(dir, 1);
+		o.columns[0] = ColumnOptions { multitree: true, allow_direct_node_access: true, ref_counted: true, preimage: true, ..Default::default() };
+		o.salt = Some([7u8; 32]);
+		o.stats = false;
+		o.always_flush = true;
+		o.sync_wal = false;
+		o.sync_data = true;
+		o.with_background_thread = background;
+		o
+	}
+
+	fn tkey(id: u64) -> Vec<u8> {
+		key_of(77, id, 0)
+	}
+
+	fn small_tree(tag: u8) -> NewNode {
+		let leaf = |x: u8| NodeRef::New(NewNode { data: vec![tag, x, 0xaa, 0xbb], children: vec![] });
+		NewNode { data: vec![tag; 12], children: vec![leaf(1), leaf(2)] }
+	}
+
+	fn log_bytes(dir: &Path) -> (usize, u64) {
+		let mut n = 0;
+		let mut b = 0;
+		if let Ok(rd) = std::fs::read_dir(dir) {
+			for e in rd.flatten() {
+				if e.file_name().to_string_lossy().starts_with("log") {
+					let l = e.metadata().map(|m| m.len()).unwrap_or(0);
+					if l > 0 {
+						n += 1;
+						b += l;
+					}
+				}
+			}
+		}
+		(n, b)
+	}
+
+	fn index_files(dir: &Path) -> Vec<String> {
+		let mut v = vec![];
+		if let Ok(rd) = std::fs::read_dir(dir) {
+			for e in rd.flatten() {
+				let n = e.file_name().to_string_lossy().to_string();
+				if n.starts_with("index_") {
+					v.push(n);
+				}
+			}
+		}
+		v.sort();
+		v
+	}
+
+	fn wait_enacted(db: &Db, at_least: u64, ms: u64) -> bool {
+		let t0 = Instant::now();
+		while db.verif_last_enacted() < at_least {
+			if t0.elapsed() > Duration::from_millis(ms) {
+				return false
+			}
+			std::thread::sleep(Duration::from_millis(2));
+		}
+		true
+	}
+
+	// ---------------------------------------------------------------------------------- A1
+	fn a1(dir: &Path, variant: &str) -> i32 {
+		let t0 = Instant::now();
+		let db = Db::open_or_create(&mt_options(dir, true)).unwrap();
+		let kt = tkey(1);
+		db.commit_changes(vec![(0u8, Operation::InsertTree(kt.clone(), small_tree(1)))]).unwrap();
+		let ok = wait_enacted(&db, 1, 3000);
+		say(t0, &format!("InsertTree T committed, enacted={} last_enacted={}", ok, db.verif_last_enacted()));
+		std::thread::sleep(Duration::from_millis(300));
+		let c0 = cpu_by_thread();
+		std::thread::sleep(Duration::from_millis(1000));
+		let c1 = cpu_by_thread();
+		say(t0, &format!("baseline idle 1000 ms: {}", cpu_delta(&c0, &c1)));
+		let reader = db.get_tree(0, &kt).unwrap().expect("tree T");
+		let guard = reader.read();
+		say(t0, &format!("reader of T read-locked; root visible={}", guard.get_root().unwrap().is_some()));
+		db.commit_changes(vec![(0u8, Operation::DereferenceTree(kt.clone()))]).unwrap();
+		say(t0, "DereferenceTree T committed (commit call returned)");
+		match variant {
+			"c" | "d" => {
+				let c0 = cpu_by_thread();
+				let le0 = db.verif_last_enacted();
+				std::thread::sleep(Duration::from_millis(1000));
+				let c1 = cpu_by_thread();
+				say(t0, &format!(
+					"lock held, client idle 1000 ms: {} last_enacted {}->{} root visible={}",
+					cpu_delta(&c0, &c1),
+					le0,
+					db.verif_last_enacted(),
+					db.get_root(0, &kt).unwrap().is_some()
+				));
+				let tr = Instant::now();
+				drop(guard);
+				say(t0, "lock released");
+				let mut gone_ms = None;
+				let mut enacted_ms = None;
+				while tr.elapsed() < Duration::from_secs(5) && (gone_ms.is_none() || enacted_ms.is_none()) {
+					if gone_ms.is_none() && db.get_root(0, &kt).unwrap().is_none() {
+						gone_ms = Some(tr.elapsed().as_micros());
+					}
+					if enacted_ms.is_none() && db.verif_last_enacted() > le0 {
+						enacted_ms = Some(tr.elapsed().as_micros());
+					}
+					std::thread::yield_now();
+				}
+				say(t0, &format!("after release: root gone after {:?} us, record enacted after {:?} us, last_enacted={}", gone_ms, enacted_ms, db.verif_last_enacted()));
+				std::thread::sleep(Duration::from_millis(200));
+				let c0 = cpu_by_thread();
+				std::thread::sleep(Duration::from_millis(1000));
+				let c1 = cpu_by_thread();
+				say(t0, &format!("drained, idle 1000 ms: {} log files non-empty={:?}", cpu_delta(&c0, &c1), log_bytes(dir)));
+				let td = Instant::now();
+				drop(reader);
+				drop(db);
+				say(t0, &format!("drop returned after {} ms", td.elapsed().as_millis()));
+			},
+			"a" => {
+				let dropped = Arc::new(AtomicBool::new(false));
+				let d2 = dropped.clone();
+				let td = Instant::now();
+				let h = std::thread::spawn(move || {
+					drop(db);
+					d2.store(true, Ordering::SeqCst);
+					td.elapsed().as_millis()
+				});
+				let c0 = cpu_by_thread();
+				std::thread::sleep(Duration::from_millis(1500));
+				let c1 = cpu_by_thread();
+				say(t0, &format!("lock held 1500 ms with drop() running on another thread: drop returned={} {}", dropped.load(Ordering::SeqCst), cpu_delta(&c0, &c1)));
+				let tr = Instant::now();
+				drop(guard);
+				say(t0, "lock released");
+				let ms = h.join().unwrap();
+				say(t0, &format!("drop returned {} ms after it was called, {} us after the release", ms, tr.elapsed().as_micros()));
+				drop(reader);
+				let mut o = mt_options(dir, false);
+				o.with_background_thread = false;
+				let db2 = Db::open(&o).unwrap();
+				say(t0, &format!("reopened: tree T present={}", db2.get_tree(0, &kt).unwrap().is_some()));
+			},
+			"b" => {
+				std::thread::spawn(move || {
+					let mut prev = cpu_by_thread();
+					loop {
+						std::thread::sleep(Duration::from_millis(1000));
+						let cur = cpu_by_thread();
+						say(t0, &format!("monitor: drop() still running on the lock-holding thread; last 1000 ms: {}", cpu_delta(&prev, &cur)));
+						prev = cur;
+					}
+				});
+				say(t0, "calling drop(db) on the thread that holds the read lock");
+				drop(db);
+				say(t0, "drop returned (NOT expected)");
+				drop(guard);
+			},
+			_ => return 2,
+		}
+		say(t0, "DONE");
+		0
+	}
+
+	// ---------------------------------------------------------------------------------- A2
+	fn a2(dir: &Path, variant: &str, background: bool) -> i32 {
+		let t0 = Instant::now();
+		let db = Db::open_or_create(&mt_options(dir, background)).unwrap();
+		let (k1, k2, ka, kb) = (tkey(1), tkey(2), tkey(10), tkey(11));
+		let step = |db: &Db| {
+			if !background {
+				db.process_commits().unwrap();
+				db.flush_logs().unwrap();
+				db.enact_logs().unwrap();
+				db.clean_logs().unwrap();
+			}
+		};
+		db.commit_changes(vec![(0u8, Operation::InsertTree(k1.clone(), small_tree(1)))]).unwrap();
+		step(&db);
+		db.commit_changes(vec![(0u8, Operation::InsertTree(k2.clone(), small_tree(2)))]).unwrap();
+		step(&db);
+		db.commit_changes(vec![(0u8, Operation::ReferenceTree(k1.clone())), (0u8, Operation::ReferenceTree(k2.clone()))]).unwrap();
+		step(&db);
+		db.commit_changes(vec![(0u8, Operation::ReferenceTree(k1.clone())), (0u8, Operation::ReferenceTree(k2.clone()))]).unwrap();
+		step(&db);
+		if background {
+			wait_enacted(&db, 4, 3000);
+		}
+		let base = db.verif_last_enacted();
+		say(t0, &format!("T1, T2 inserted and referenced twice more (rc 3): last_enacted={}", base));
+		let r1 = db.get_tree(0, &k1).unwrap().expect("T1");
+		let r2 = db.get_tree(0, &k2).unwrap().expect("T2");
+		let g1 = r1.read();
+		let g2 = r2.read();
+		say(t0, "readers of T1 and T2 read-locked");
+		let ncommits;
+		match variant {
+			// the sequence of the task description
+			"zxy" => {
+				db.commit_changes(vec![(0u8, Operation::DereferenceTree(k2.clone()))]).unwrap();
+				db.commit_changes(vec![(0u8, Operation::DereferenceTree(k1.clone())), (0u8, Operation::InsertTree(ka.clone(), small_tree(3)))]).unwrap();
+				db.commit_changes(vec![(0u8, Operation::DereferenceTree(k2.clone())), (0u8, Operation::InsertTree(kb.clone(), small_tree(4)))]).unwrap();
+				ncommits = 3;
+				say(t0, "committed Z=[Deref T2], X=[Deref T1, Insert A], Y=[Deref T2, Insert B]");
+			},
+			// minimal: ONE tree, two commits that each dereference it and insert a tree
+			"single" => {
+				db.commit_changes(vec![(0u8, Operation::DereferenceTree(k1.clone())), (0u8, Operation::InsertTree(ka.clone(), small_tree(3)))]).unwrap();
+				db.commit_changes(vec![(0u8, Operation::DereferenceTree(k1.clone())), (0u8, Operation::InsertTree(kb.clone(), small_tree(4)))]).unwrap();
+				ncommits = 2;
+				say(t0, "committed X=[Deref T1, Insert A], Y=[Deref T1, Insert B]");
+			},
+			// control: no cycle (Y does not dereference)
+			"control" => {
+				db.commit_changes(vec![(0u8, Operation::DereferenceTree(k2.clone()))]).unwrap();
+				db.commit_changes(vec![(0u8, Operation::DereferenceTree(k1.clone())), (0u8, Operation::InsertTree(ka.clone(), small_tree(3)))]).unwrap();
+				db.commit_changes(vec![(0u8, Operation::InsertTree(kb.clone(), small_tree(4)))]).unwrap();
+				ncommits = 3;
+				say(t0, "committed Z=[Deref T2], X=[Deref T1, Insert A], Y=[Insert B] (control, no cycle)");
+			},
+			_ => return 2,
+		}
+		if background {
+			let c0 = cpu_by_thread();
+			std::thread::sleep(Duration::from_millis(500));
+			let c1 = cpu_by_thread();
+			say(t0, &format!("locks still held 500 ms: last_enacted={} {}", db.verif_last_enacted(), cpu_delta(&c0, &c1)));
+		}
+		drop(g1);
+		drop(g2);
+		drop(r1);
+		drop(r2);
+		say(t0, "both readers unlocked and dropped; no lock is held from here on");
+		if !background {
+			let mut progress_calls = vec![];
+			for i in 0..50 {
+				let before = db.verif_last_enacted();
+				let lb = log_bytes(dir);
+				db.process_commits().unwrap();
+				db.flush_logs().unwrap();
+				db.enact_logs().unwrap();
+				db.clean_logs().unwrap();
+				let after = db.verif_last_enacted();
+				if after != before {
+					progress_calls.push(i);
+				}
+				if i < 8 || i == 49 || after != before {
+					say(t0, &format!(
+						"process_commits call {}: last_enacted {}->{} logs before={:?} A visible={} B visible={}",
+						i,
+						before,
+						after,
+						lb,
+						db.get_root(0, &ka).unwrap().is_some(),
+						db.get_root(0, &kb).unwrap().is_some()
+					));
+				}
+			}
+			say(t0, &format!(
+				"50 process_commits calls: records enacted {} (expected {} if the queue drained), calls that logged a record: {:?}",
+				db.verif_last_enacted() - base,
+				ncommits,
+				progress_calls
+			));
+		} else {
+			for _ in 0..3 {
+				let c0 = cpu_by_thread();
+				let le0 = db.verif_last_enacted();
+				std::thread::sleep(Duration::from_millis(1000));
+				let c1 = cpu_by_thread();
+				say(t0, &format!("client idle 1000 ms: last_enacted {}->{} (base {}) logs={:?} {}", le0, db.verif_last_enacted(), base, log_bytes(dir), cpu_delta(&c0, &c1)));
+			}
+		}
+		let drained = db.verif_last_enacted() - base == ncommits;
+		say(t0, &format!("drained={}", drained));
+		// drop under a watchdog
+		let done = Arc::new(AtomicBool::new(false));
+		let d2 = done.clone();
+		std::thread::spawn(move || {
+			drop(db);
+			d2.store(true, Ordering::SeqCst);
+		});
+		let td = Instant::now();
+		let c0 = cpu_by_thread();
+		while !done.load(Ordering::SeqCst) && td.elapsed() < Duration::from_secs(5) {
+			std::thread::sleep(Duration::from_millis(10));
+		}
+		let c1 = cpu_by_thread();
+		say(t0, &format!("drop(db): returned={} after {} ms; {}", done.load(Ordering::SeqCst), td.elapsed().as_millis(), cpu_delta(&c0, &c1)));
+		say(t0, "DONE");
+		std::process::exit(if drained { 0 } else { 7 });
+	}
+
+	// ---------------------------------------------------------------------------------- A3
+	fn plain_options(dir: &Path) -> Options {
+		let mut o = Options::with_columns(dir, 1);
+		o.salt = Some([7u8; 32]);
+		o.stats = false;
+		o.always_flush = true;
+		o.sync_wal = false;
+		o.sync_data = true;
+		o.with_background_thread = true;
+		o
+	}
+
+	fn a3(dir: &Path, point: &'static str, variant: &str) -> i32 {
+		let t0 = Instant::now();
+		let db = Arc::new(Db::open_or_create(&plain_options(dir)).unwrap());
+		// two ordinary commits, fully drained
+		for i in 0..2u64 {
+			db.commit(vec![(0u8, key_of(1, i, 0), Some(value_of(100, i)))]).unwrap();
+		}
+		wait_enacted(&db, 2, 3000);
+		std::thread::sleep(Duration::from_millis(100));
+		say(t0, &format!("2 commits drained, last_enacted={} threads={}", db.verif_last_enacted(), cpu_by_thread().len()));
+		let fired = Arc::new(AtomicU64::new(0));
+		let f2 = fired.clone();
+		parity_db::verif::set_yield_hook(Some(Arc::new(move |name: &'static str| {
+			if name == point {
+				f2.fetch_add(1, Ordering::SeqCst);
+				panic!("probe: injected panic at {}", name);
+			}
+		})));
+		db.commit(vec![(0u8, key_of(1, 2, 0), Some(value_of(100, 2)))]).unwrap();
+		let tw = Instant::now();
+		while fired.load(Ordering::SeqCst) == 0 && tw.elapsed() < Duration::from_secs(3) {
+			std::thread::sleep(Duration::from_millis(1));
+		}
+		std::thread::sleep(Duration::from_millis(100));
+		parity_db::verif::set_yield_hook(None);
+		say(t0, &format!("hook fired {} time(s) at {}; hook removed; threads now={} last_enacted={}", fired.load(Ordering::SeqCst), point, cpu_by_thread().len(), db.verif_last_enacted()));
+		let n = if variant == "drop" { 1 } else { 12 };
+		let progress = Arc::new(AtomicU64::new(0));
+		let returned = Arc::new(AtomicU64::new(0));
+		let committer = {
+			let (db, progress, returned) = (db.clone(), progress.clone(), returned.clone());
+			std::thread::spawn(move || {
+				for i in 0..n {
+					progress.store(i + 1, Ordering::SeqCst);
+					println!("begin commit {} 17m", i);
+					let t = Instant::now();
+					let r = db.commit(vec![(0u8, key_of(2, i, 0), Some(value_of(17 << 20, i)))]);
+					println!("commit {} 17m returned {:?} after {} ms", i, r.map_err(|e| err_kind(&e)), t.elapsed().as_millis());
+					returned.store(i + 1, Ordering::SeqCst);
+				}
+			})
+		};
+		// watchdog: no progress for 3 s
+		let mut last = (0, Instant::now());
+		loop {
+			std::thread::sleep(Duration::from_millis(50));
+			let r = returned.load(Ordering::SeqCst);
+			if r != last.0 {
+				last = (r, Instant::now());
+			}
+			if r == n {
+				break
+			}
+			if last.1.elapsed() > Duration::from_secs(3) {
+				break
+			}
+		}
+		let r = returned.load(Ordering::SeqCst);
+		let c0 = cpu_by_thread();
+		std::thread::sleep(Duration::from_millis(500));
+		let c1 = cpu_by_thread();
+		say(t0, &format!(
+			"committer: {} of {} calls returned, call #{} pending for > 3 s = {}; last_enacted={} logs={:?}; next 500 ms: {}",
+			r,
+			n,
+			progress.load(Ordering::SeqCst),
+			r < n,
+			db.verif_last_enacted(),
+			log_bytes(dir),
+			cpu_delta(&c0, &c1)
+		));
+		if r == n {
+			let _ = committer.join();
+			let db = Arc::try_unwrap(db).ok().unwrap();
+			let done = Arc::new(AtomicBool::new(false));
+			let d2 = done.clone();
+			std::thread::spawn(move || {
+				drop(db);
+				d2.store(true, Ordering::SeqCst);
+			});
+			let td = Instant::now();
+			while !done.load(Ordering::SeqCst) && td.elapsed() < Duration::from_secs(5) {
+				std::thread::sleep(Duration::from_millis(10));
+			}
+			say(t0, &format!("drop(db): returned={} after {} ms", done.load(Ordering::SeqCst), td.elapsed().as_millis()));
+			if done.load(Ordering::SeqCst) {
+				let mut o = plain_options(dir);
+				o.with_background_thread = false;
+				match Db::open(&o) {
+					Ok(db2) => {
+						let mut present = vec![];
+						for i in 0..3u64 {
+							present.push(db2.get(0, &key_of(1, i, 0)).unwrap().is_some());
+						}
+						let big = db2.get(0, &key_of(2, 0, 0)).unwrap().map(|v| v.len());
+						say(t0, &format!("reopened: small keys 0..3 present={:?} (key 2 = the commit whose processing panicked), 17m key len={:?}", present, big));
+					},
+					Err(e) => say(t0, &format!("reopen failed {:?}", e)),
+				}
+			}
+		} else {
+			say(t0, "the handle cannot be dropped: the blocked committer owns a reference; process must be killed");
+		}
+		say(t0, "DONE");
+		std::process::exit(0);
+	}
+
+	// ---------------------------------------------------------------------------------- A4
+	const PREFIX: [u8; 2] = [0x5a, 0xc3];
+	fn hot_key(space: u8, id: u64) -> [u8; 32] {
+		let mut r = Rng::new(id.wrapping_mul(0x9e37_79b9).wrapping_add(space as u64 * 0x1_0000_0001));
+		let mut k = [0u8; 32];
+		for i in 0..4 {
+			k[i * 8..i * 8 + 8].copy_from_slice(&r.next().to_le_bytes());
+		}
+		k[0] = PREFIX[0];
+		k[1] = PREFIX[1];
+		k[24] = space;
+		k[25..32].copy_from_slice(&id.to_be_bytes()[1..8]);
+		k
+	}
+
+	fn a4_options(dir: &Path, sync_data: bool) -> Options {
+		let mut o = Options::with_columns(dir, 1);
+		o.columns[0] = ColumnOptions { uniform: true, ..Default::default() };
+		o.salt = Some([0u8; 32]);
+		o.with_background_thread = true;
+		o.always_flush = true;
+		o.stats = false;
+		o.sync_wal = false;
+		o.sync_data = sync_data;
+		o
+	}
+
+	fn a4_state(db: &Db, dir: &Path) -> String {
+		let (nr, le) = db.verif_reindex_state();
+		format!("index_files={:?} tables={:?} next_reindex={} last_enacted={} nonempty_logs={:?}", index_files(dir), db.verif_index_tables(0), nr, le, log_bytes(dir))
+	}
+
+	/// sample every `step_ms` for `total_ms`, print every change; returns the final state string
+	fn a4_watch(t0: Instant, db: &Db, dir: &Path, total_ms: u64, until_one_index: bool) -> (String, u64) {
+		let ts = Instant::now();
+		let mut prev = String::new();
+		loop {
+			let s = a4_state(db, dir);
+			if s != prev {
+				say(t0, &format!("  +{} ms: {}", ts.elapsed().as_millis(), s));
+				prev = s;
+			}
+			if until_one_index && index_files(dir).len() == 1 && db.verif_index_tables(0).map(|x| x.1.is_empty()).unwrap_or(true) {
+				break
+			}
+			if ts.elapsed() > Duration::from_millis(total_ms) {
+				break
+			}
+			std::thread::sleep(Duration::from_millis(if until_one_index { 2 } else { 100 }));
+		}
+		(prev, ts.elapsed().as_millis() as u64)
+	}
+
+	fn a4(dir: &Path, variant: &str, sync_data: bool, nkeys: u64, per_tx: u64) -> i32 {
+		let t0 = Instant::now();
+		let db = Db::open_or_create(&a4_options(dir, sync_data)).unwrap();
+		say(t0, &format!("opened: {}", a4_state(&db, dir)));
+		let mut id = 0;
+		while id < nkeys {
+			let n = per_tx.min(nkeys - id);
+			db.commit((id..id + n).map(|i| (0u8, hot_key(2, i).to_vec(), Some(i.to_le_bytes().to_vec())))).unwrap();
+			id += n;
+		}
+		say(t0, &format!("{} hot keys committed in transactions of {}: {}", nkeys, per_tx, a4_state(&db, dir)));
+		say(t0, "client quiet (5 s for 'tiny' / 'reopen', 2 s for 'two'):");
+		let quiet = if variant == "two" { 2000 } else { 5000 };
+		let (_s, _) = a4_watch(t0, &db, dir, quiet, false);
+		let stalled = index_files(dir).len() > 1;
+		say(t0, &format!("after the quiet period: old index file(s) still present={}", stalled));
+		println!("RESULT quiet_stalled={}", stalled);
+		match variant {
+			"tiny" | "two" => {
+				let mut tiny = 0u64;
+				loop {
+					let mut k = [0x11u8; 32];
+					k[8..16].copy_from_slice(&tiny.to_be_bytes());
+					db.commit(vec![(0u8, k.to_vec(), Some(vec![1u8]))]).unwrap();
+					tiny += 1;
+					say(t0, &format!("tiny commit #{} done; quiet again:", tiny));
+					let (_s, ms) = a4_watch(t0, &db, dir, 2000, true);
+					let left = index_files(dir).len();
+					say(t0, &format!("after tiny commit #{}: index files={} (watched {} ms)", tiny, left, ms));
+					println!("RESULT after_tiny{} index_files={} queued={:?}", tiny, left, db.verif_index_tables(0).map(|x| x.1.len()));
+					if left == 1 || tiny >= 4 {
+						break
+					}
+				}
+				let td = Instant::now();
+				drop(db);
+				say(t0, &format!("drop {} ms", td.elapsed().as_millis()));
+			},
+			"reopen" | "crashopen" => {
+				let dir2 = dir.with_extension("copy");
+				let dir = if variant == "crashopen" {
+					// crash image: copy of the live directory (tmpfs: the mapped index pages are in the files)
+					copy_dir(dir, &dir2);
+					let _ = std::fs::remove_file(dir2.join("lock"));
+					say(t0, &format!("crash image taken; index files in the image={:?} logs={:?}", index_files(&dir2), log_bytes(&dir2)));
+					&dir2
+				} else {
+					let td = Instant::now();
+					drop(db);
+					say(t0, &format!("drop {} ms; index files on disk={:?}", td.elapsed().as_millis(), index_files(dir)));
+					dir
+				};
+				let db = Db::open(&a4_options(dir, sync_data)).unwrap();
+				say(t0, &format!("reopened with workers: {}", a4_state(&db, dir)));
+				let (_s, _) = a4_watch(t0, &db, dir, 3000, true);
+				println!("RESULT after_reopen index_files={}", index_files(dir).len());
+				let mut missing = 0;
+				for i in 0..nkeys {
+					if db.get(0, &hot_key(2, i)).unwrap() != Some(i.to_le_bytes().to_vec()) {
+						missing += 1;
+					}
+				}
+				say(t0, &format!("keys missing after reopen: {}", missing));
+				drop(db);
+			},
+			_ => return 2,
+		}
+		say(t0, "DONE");
+		0
+	}
+
+	pub fn main(dir: &Path, name: &str, args: &[String]) -> i32 {
+		let a = |i: usize, d: &str| -> String { args.get(i).cloned().unwrap_or(d.to_string()) };
+		match name {
+			"probe-a1" => a1(dir, &a(0, "c")),
+			"probe-a2" => a2(dir, &a(0, "zxy"), a(1, "0") == "1"),
+			"probe-a3" => a3(
+				dir,
+				if a(0, "log") == "log" { "process_commits.before_end_record" } else { "enact_logs.before_end_read" },
+				&a(1, "block"),
+			),
+			"probe-a4" => a4(dir, &a(0, "tiny"), a(1, "0") == "1", a(2, "80").parse().unwrap(), a(3, "20").parse().unwrap()),
+			_ => {
+				println!("unknown probe {} {:?} {:?}", name, dir, args);
+				2
+			},
+		}
+	}
 }
